@@ -9,6 +9,7 @@ CONSTANTS
   Usages = {}
   ChainLens = {}
   Holds = {}
+  OnchainCNs = {}
   RegStates = {}
   RegKeys = {}
   RegWindows = {}
@@ -19,6 +20,9 @@ CONSTANTS
   GTokens = {}
   OTokens = {}
   Extras = {}
+  Tickets = TRUE
+  Changes = {}
+  Presents = {}
 INIT Init
 NEXT Next
-INVARIANTS AuthHolds VpcHolds ScopeHolds Conforms
+INVARIANTS AuthHolds VpcHolds ScopeHolds ResumeHolds ResumeScopeHolds Conforms RevocationEffective
